@@ -479,3 +479,16 @@ Proof.
     rewrite Hc in H. inversion H as [|? ? _ H1]; subst. inversion H1 as [|? ? Hnotin _]; subst.
     apply Hnotin. right. left. reflexivity.
 Qed.
+
+(* the 8-digit bound on the sequence is needed for the ORDER (not for uniqueness): with a 9-digit sequence
+   number the byte-wise order no longer follows the generation order *)
+Lemma sequence_width_refuted_lemma :
+  exists t s1 s2 : Z, (0 <= t < 10 ^ 19 /\ 0 <= s1 < s2 /\ s2 = 10 ^ 8)%Z /\
+    ~ lex_lt (format_id suffix_ff (t, s1)) (format_id suffix_ff (t, s2)) /\
+    lex_lt (format_id suffix_ff (t, s2)) (format_id suffix_ff (t, s1)).
+Proof.
+  exists 100%Z, 99999999%Z, 100000000%Z. split; [|split].
+  - pow_consts. lia.
+  - intro H. apply bytes_ltb_spec in H. vm_compute in H. discriminate.
+  - apply bytes_ltb_spec. vm_compute. reflexivity.
+Qed.
